@@ -62,21 +62,22 @@ def MATCH(lookup_value, lookup_array, match_type=1):
 
     index = None
     index_value = None
+    # text is ordered as it is compared under match type 0: without regard to letter case
+    key = fold_case if isinstance(lookup_value, string_types) else (lambda value: value)
+    sought = key(lookup_value)
     for idx in range(len(lookup_array)):
         # like is compared with like: text never equals (or orders against) a number, and
         # TRUE is not 1 - an item of another kind is passed over, as in a sheet
         if _kind(lookup_array[idx]) != _kind(lookup_value):
             continue
+        item = key(lookup_array[idx])
         if match_type == 1:
-            if lookup_array[idx] == lookup_value:
+            if item == sought:
                 return idx + 1
-            elif lookup_array[idx] < lookup_value:
-                if not index_value:
+            elif item < sought:
+                if index is None or item > index_value:
                     index = idx + 1
-                    index_value = lookup_array[idx]
-                elif lookup_array[idx] > index_value:
-                    index = idx + 1
-                    index_value = lookup_array[idx]
+                    index_value = item
         elif match_type == 0:
             if isinstance(lookup_value, string_types):
                 # only * and ? are wildcards: take '[' literally
@@ -86,15 +87,12 @@ def MATCH(lookup_value, lookup_array, match_type=1):
                 if lookup_array[idx] == lookup_value:
                     return idx + 1
         elif match_type == -1:
-            if lookup_array[idx] == lookup_value:
+            if item == sought:
                 return idx + 1
-            elif lookup_array[idx] > lookup_value:
-                if not index_value:
+            elif item > sought:
+                if index is None or item < index_value:
                     index = idx + 1
-                    index_value = lookup_array[idx]
-                elif lookup_array[idx] < index_value:
-                    index = idx + 1
-                    index_value = lookup_array[idx]
+                    index_value = item
 
     return index if index else error.NOT_AVAILABLE
 
